@@ -25,7 +25,8 @@ CONSTANTS MaxSteps,     \* length of the histories
           Pairs,        \* "no": a call on two different objects needs a container (the plain pair is MC_Ops');
                         \* "also": such calls too, with pow_ and the comparisons, and probes that change operator / policy / fill method;
                         \* "only": nothing but calls on two objects
-          Extend        \* mechanism variant, see OpsSession.tla
+          Extend,       \* mechanism variant, see OpsSession.tla
+          Mech          \* FALSE: generator only - the mechanism is not run (the histories and what the law expects are all that is printed)
 
 VARIABLES env,    \* [cols, fam, join]: value family and the policies of the session
           law,    \* the heap according to the LAW: changed by the caller's own actions only
@@ -108,7 +109,8 @@ DoCall(c) == /\ Len(hist) < MaxSteps
              /\ Pairs = "only" => c.a.r = "o" /\ c.b.r = "o"
              /\ (Len(hist) >= FreeSteps => (Called /\ Probe(c))) = TRUE     \* (= TRUE: a condition, not a choice of successors)
              /\ SessDomain(law, c) = TRUE
-             /\ LET m == MechCall(heap, c, Extend) IN heap' = m.heap /\ last' = [c |-> c, out |-> m.out]
+             /\ IF Mech THEN LET m == MechCall(heap, c, Extend) IN heap' = m.heap /\ last' = [c |-> c, out |-> m.out]
+                ELSE heap' = heap /\ last' = [c |-> c, out |-> [k |-> "none"]]
              /\ at' = law
              /\ hist' = Append(hist, [h |-> law, s |-> CallStep(c)])
              /\ UNCHANGED <<env, law>>
@@ -136,7 +138,9 @@ CallerRename  == \E o \in 1..Len(law.objs), c1 \in {"a", "b", "c"}, c2 \in {"c",
 CallerReorder == \E o \in 1..Len(law.objs) : DoCaller(EditStep("reorder", o, 0, <<>>))
 CallerPokes   == \E o \in 1..Len(law.objs), x \in {0, 1} : DoCaller(EditStep("pokes", o, x, <<>>))
 CallerEdits   == CallerShift \/ CallerRestamp \/ CallerRename \/ CallerReorder \/ CallerPokes
-Next == CallFold \/ CallCut \/ CallAgg \/ CallPair \/ CallVariant \/ CallerAppend \/ CallerPop \/ CallerPoke \/ CallerEdits
+Next == CallFold \/ CallCut \/ CallAgg \/ CallerAppend \/ CallerPop \/ CallerPoke
+\* ... with the calls on two objects, the variants of the last call and the shape-keeping edits (configurations *_edits*)
+NextE == Next \/ CallPair \/ CallVariant \/ CallerEdits
 
 \* ---- what the statement says, clause by clause -----------------------------------------------
 \* a call changes nothing the caller owns: no container gains, loses or swaps a member, no operand changes a cell
@@ -182,4 +186,5 @@ Complete == Len(hist) = MaxSteps /\ hist[Len(hist)].s.act = "call"
 \* a complete history is printed when it is expanded (once, also under the simulator, which evaluates every candidate successor)
 Finish  == Complete /\ Emit /\ UNCHANGED vars
 NextGen == Next \/ Finish
+NextGenE == NextE \/ Finish
 =============================================================================
